@@ -58,6 +58,32 @@ def specs(ctx):
         cfg = dict(max_request_concurrency=1, max_submission_concurrency=rng.choice([1, 2]),
                    max_in_memory_upload_chunks=rng.choice([1, 2]), multipart_chunksize=4, multipart_threshold=rng.choice([3, 5]))
         out.append(dict(transfers=ts, cfg=cfg, chooser={'kind': ['pct', 'random'][i % 2], 'seed': rng.randrange(1 << 30), 'depth': 5}))
+    # the lowest part is the slowest (its body delivers nothing until everything else is stuck) while a
+    # later part inside the window is re-requested again and again after failing near its end: what was
+    # already received for it is delivered anew on every attempt, and the out-of-order data held for the
+    # stream must still fit the window.  Every byte handed out by a GetObject body is tracked until the
+    # last reference to it goes away.
+    for i in range(60 if ctx.thorough() else 16):
+        cs = rng.choice([6, 8])
+        win = rng.choice([2, 2, 3])
+        att = rng.choice([5, 7, 9])
+        cfg = dict(max_request_concurrency=rng.choice([2, 3]), max_submission_concurrency=1,
+                   max_in_memory_download_chunks=win, max_io_queue_size=rng.choice([1, 2]),
+                   multipart_chunksize=cs, multipart_threshold=cs, io_chunksize=rng.choice([1, 2]),
+                   num_download_attempts=att)
+        out.append(dict(transfers=[dict(kind='download', dst='nonseekable', size=cs * rng.choice([2, 3, 4]) + rng.choice([0, 1]))],
+                        cfg=cfg, track_get=True,
+                        get_fault=dict(range_idx=rng.choice([1, 1, 2]) if win > 2 else 1, attempts=att - 1 - (i % 4 == 3),
+                                       after=cs - rng.choice([1, 2]), exc='timeout', stall_range_idx=0),
+                        chooser={'kind': ['random', 'pct', 'first'][i % 3], 'seed': rng.randrange(1 << 30), 'depth': 4}))
+    # the same tracking without faults, several streams sharing the manager
+    for i in range(40 if ctx.thorough() else 10):
+        cfg = dict(max_request_concurrency=rng.choice([1, 2, 3]), max_submission_concurrency=rng.choice([1, 2]),
+                   max_in_memory_download_chunks=rng.choice([1, 2, 3]), max_io_queue_size=rng.choice([1, 2]),
+                   multipart_chunksize=4, multipart_threshold=4, io_chunksize=rng.choice([1, 2, 3]))
+        out.append(dict(transfers=[dict(kind='download', dst='nonseekable', size=rng.choice([9, 14, 19])) for _ in range(rng.choice([1, 2]))],
+                        cfg=cfg, track_get=True,
+                        chooser={'kind': ['pct', 'random'][i % 2], 'seed': rng.randrange(1 << 30), 'depth': 5}))
     return out
 
 
